@@ -330,7 +330,7 @@ var harnesses = []harness{
 		ln.Close()
 		e.finish(false)
 	}},
-	{Name: "S5", Desc: "BroadcastMessage || peer closes || GetConnections/Size/ListeningAddress (then Shutdown)", Overlap2: [2]string{"BroadcastMessage", "peer-close"}, Body: func(o *obs) {
+	{Name: "S5", Desc: "BroadcastMessage || peer closes || ListeningAddress/GetConnections/Size (then Shutdown)", Overlap2: [2]string{"BroadcastMessage", "peer-close"}, Body: func(o *obs) {
 		e := newEnv(o, false)
 		e.run()
 		var closeA vsync.WaitGroup
@@ -346,7 +346,6 @@ var harnesses = []harness{
 			c.Close()
 			vsched.Mark("peer-close:end")
 		})
-		e.background("peerB", e.peerBody(peerScript{local: peerB}))
 		vsched.Quiesce()
 		vsched.StartExploring()
 		closeA.Done()
@@ -357,9 +356,9 @@ var harnesses = []harness{
 			})
 		})
 		e.thread("Queries", func() {
+			call(o, "ListeningAddress", func() error { _, err := e.pool.ListeningAddress(); return err })
 			call(o, "GetConnections", func() error { _, err := e.pool.GetConnections(); return err })
 			call(o, "Size", func() error { _, err := e.pool.Size(); return err })
-			call(o, "ListeningAddress", func() error { _, err := e.pool.ListeningAddress(); return err })
 		})
 		e.finish(true)
 	}},
@@ -405,6 +404,16 @@ var harnesses = []harness{
 			call(o, "Disconnect", func() error { return e.pool.Disconnect(peerA, errors.New("harness disconnect")) })
 		})
 		e.finish(true)
+	}},
+	{Name: "S8", Desc: "Run || ListeningAddress || Shutdown", Overlap: []string{"Run", "ListeningAddress"}, Body: func(o *obs) {
+		e := newEnv(o, false)
+		vsched.StartExploring()
+		e.run()
+		e.thread("ListeningAddress", func() {
+			call(o, "ListeningAddress", func() error { _, err := e.pool.ListeningAddress(); return err })
+		})
+		e.thread("Shutdown", e.shutdown)
+		e.finish(false)
 	}},
 }
 
